@@ -218,3 +218,64 @@ def dependency_units(pid):
 def unit_cost(m, n):
     load_all()
     return _costs.get((m, n), 1)
+
+
+# ------------------------------------------------------------------------------------------------------------------
+# property-level composition lemmas: a clause of the property that follows from postconditions of SEVERAL functions.
+# Each lemma names the obligations (by fnmatch pattern) it composes and the reason; report.py records it as one more
+# obligation, discharged exactly when every obligation it names is present and proved in the same run (back end `compose`).
+# ------------------------------------------------------------------------------------------------------------------
+_SWU = "py_ecc.optimized_bls12_381.optimized_swu"
+_H2C = "py_ecc.bls.hash_to_curve"
+_OC = "py_ecc.optimized_bls12_381.optimized_curve"
+_CC = "py_ecc.optimized_bls12_381.optimized_clear_cofactor"
+_CURVES4 = ("py_ecc.bn128.bn128_curve", "py_ecc.optimized_bn128.optimized_curve", "py_ecc.bls12_381.bls12_381_curve",
+            "py_ecc.optimized_bls12_381.optimized_curve")
+LEMMAS = {
+    "C07": [
+        dict(name="abelian-group.four-modules",
+             text="in each of the four curve modules add / double / neg compute the affine chord-and-tangent law on abstract values "
+                  "(ensures.abs, ensures.valid), eq / is_inf / is_on_curve decide equality, identity and membership exactly, multiply "
+                  "is the n-fold sum; the affine law is an abelian group (Lean GroupLaw.lean: it IS Mathlib's Weierstrass group law) and "
+                  "n.P a Z-action (Cyclic.lean): hence associativity, commutativity, identity, inverses, double(P) = P + P, "
+                  "multiply(P, n) = n.P = multiply(P, n mod r) for points of order r, and agreement of the optimized with the "
+                  "reference modules (same abstract values)",
+             requires=[f"{m}.{f}/ensures.{c}" for m in _CURVES4 for f, c in (("add", "abs"), ("add", "valid"), ("double", "abs"),
+                                                                                  ("neg", "abs"), ("eq", "iff"), ("is_inf", "iff"),
+                                                                                  ("is_on_curve", "iff"), ("multiply", "abs"))]),
+    ],
+    "C17": [
+        dict(name="clear_cofactor.lands-in-subgroup",
+             text="clear_cofactor_G1/G2(P) = h_eff . P (unit postconditions); #E(F_p) = h1 r, the cofactor part of E(F_p) has exponent "
+                  "|x - 1| = |h_eff(G1)|, #E'(F_p2) = h2 r and h_eff(G2) = k h2 (computed facts); hence r . clear_cofactor(P) = O for every "
+                  "curve point (Lean Cofactor.lean), and subgroup_check(clear_cofactor(P)) is True by the subgroup_check postcondition",
+             requires=[f"{_CC}.multiply_clear_cofactor_G1/ensures.abs", f"{_CC}.multiply_clear_cofactor_G2/ensures.abs",
+                       "py_ecc.bls.g2_primitives.subgroup_check/ensures.iff", f"{_OC}.multiply/ensures.abs",
+                       "consts.bls-cofactors/bls.hasse-G1", "consts.bls-cofactors/bls.struct-G1", "consts.bls-cofactors/bls.order-twist",
+                       "consts.bls-cofactors/h2c.cofactor-kills-twist-cofactor", "consts.bls-cofactors/bls.cofactors"]),
+    ],
+    "C10": [
+        dict(name="hash_to_G2.lands-in-subgroup",
+             text="hash_to_G2(msg) = clear_cofactor(iso(swu(u0)) + iso(swu(u1))): swu gives points of E'' (on-curve, z != 0), the pinned "
+                  "isogeny maps E'' into the twist E', add stays on E', clear_cofactor multiplies by h_eff = k h2, and (h2 r).X = O for "
+                  "every X of E'(F_p2) (point count), hence r.(result) = O  (Lean Cofactor.lean clear_cofactor_multiple)",
+             requires=[f"{_H2C}.hash_to_G2/ensures.composition", f"{_H2C}.map_to_curve_G2/ensures.composition",
+                       f"{_SWU}.optimized_swu_G2/ensures.on-curve", f"{_SWU}.optimized_swu_G2/ensures.den",
+                       f"{_SWU}.iso_map_G2/ensures.x", f"{_SWU}.iso_map_G2/ensures.y", f"{_SWU}.iso_map_G2/ensures.den",
+                       "h2c.closed/swu.isogeny-G2-maps-Eprime-into-E", f"{_OC}.add/ensures.valid", f"{_OC}.add/ensures.abs",
+                       f"{_CC}.multiply_clear_cofactor_G2/ensures.abs", f"{_OC}.multiply/ensures.abs",
+                       "consts.bls-cofactors/bls.order-twist", "consts.bls-cofactors/h2c.cofactor-kills-twist-cofactor",
+                       "consts.bls-cofactors/bls.cofactors"]),
+        dict(name="hash_to_G1.lands-in-subgroup",
+             text="the same composition for G1: clear_cofactor multiplies by h_eff = 1 - x, the cofactor part of E(F_p) has exponent |x - 1| "
+                  "(computed fact bls.struct-G1) and #E(F_p) = h1 r (bls.hasse-G1), hence r.(result) = O  (Lean Cofactor.lean "
+                  "clear_cofactor_exponent)",
+             requires=[f"{_H2C}.hash_to_G1/ensures.composition", f"{_H2C}.map_to_curve_G1/ensures.composition",
+                       f"{_SWU}.optimized_swu_G1/ensures.on-curve", f"{_SWU}.optimized_swu_G1/ensures.den",
+                       f"{_SWU}.iso_map_G1/ensures.x", f"{_SWU}.iso_map_G1/ensures.y", f"{_SWU}.iso_map_G1/ensures.den",
+                       "h2c.closed/swu.isogeny-G1-maps-Eprime-into-E", f"{_OC}.add/ensures.valid", f"{_OC}.add/ensures.abs",
+                       f"{_CC}.multiply_clear_cofactor_G1/ensures.abs", f"{_OC}.multiply/ensures.abs",
+                       "consts.bls-cofactors/bls.hasse-G1", "consts.bls-cofactors/bls.struct-G1", "consts.bls-cofactors/bls.cofactors"]),
+    ],
+}
+
